@@ -3,7 +3,7 @@
    model; plus the hand-written 4-multiplication product, the thread-local cache policy
    and the conversion model of link.c. *)
 Require Import Reals List ZArith Lra Lia Bool.
-Require Import MPSV.Mpc.MpfSem MPSV.Mpc.MpcErr MPSV.Mpc.Gen.MpcGen.
+Require Import MPSV.Mpc.MpfSem MPSV.Mpc.MpcErr MPSV.Mpc.MpcPow MPSV.Mpc.Gen.MpcGen.
 Import ListNotations.
 Open Scope R_scope.
 
@@ -59,7 +59,11 @@ Definition entries_comp1 : list (prog * spec) :=
     (prog_mpc_mul_ui_p0, spec_mpc_mul_ui_p0); (prog_mpc_mul_ui_p1, spec_mpc_mul_ui_p1);
     (prog_mpc_div_ui_p0, spec_mpc_div_ui_p0); (prog_mpc_div_ui_p1, spec_mpc_div_ui_p1);
     (prog_mpc_mul_2exp_p0, spec_mpc_mul_2exp_p0); (prog_mpc_mul_2exp_p1, spec_mpc_mul_2exp_p1);
-    (prog_mpc_div_2exp_p0, spec_mpc_div_2exp_p0); (prog_mpc_div_2exp_p1, spec_mpc_div_2exp_p1) ].
+    (prog_mpc_div_2exp_p0, spec_mpc_div_2exp_p0); (prog_mpc_div_2exp_p1, spec_mpc_div_2exp_p1);
+    (prog_mpc_add_f_p0, spec_mpc_add_f_p0); (prog_mpc_add_f_p1, spec_mpc_add_f_p1);
+    (prog_mpc_sub_f_p0, spec_mpc_sub_f_p0); (prog_mpc_sub_f_p1, spec_mpc_sub_f_p1);
+    (prog_mpc_f_sub_p0, spec_mpc_f_sub_p0); (prog_mpc_f_sub_p1, spec_mpc_f_sub_p1);
+    (prog_mpc_set_ui_p0, spec_mpc_set_ui_p0) ].
 
 Lemma comp1_all : Forall (fun e => cplx_err_ok 1 (fst e) (snd e)) entries_comp1.
 Proof. unfold entries_comp1. all_entries ltac:(simpl fst; simpl snd; comp1_tac). Qed.
@@ -186,6 +190,90 @@ Proof.
   match goal with H : std_model ?rnd ?u |- _ => apply (mod_err rnd u H); lra end.
 Qed.
 
+
+(* ---------------------------------------------------------------- remaining helpers *)
+Lemma smod_err_abs rnd u (H : std_model rnd u) (q1 q2 q3 : reg) a b : u <= 1 ->
+  Rabs (rnd q3 (rnd q1 (a * a) + rnd q2 (b * b)) - (a * a + b * b)) <= 2 * u * Rabs (a * a + b * b).
+Proof. intro Hu. rewrite sumsq_abs. apply (smod_err rnd u H); exact Hu. Qed.
+Lemma mod_err_abs rnd u (H : std_model rnd u) (q1 q2 q3 q4 : reg) a b : u <= 1 ->
+  Rabs (rnd q4 (sqrt (rnd q3 (rnd q1 (a * a) + rnd q2 (b * b)))) - sqrt (a * a + b * b)) <= 2 * u * Rabs (sqrt (a * a + b * b)).
+Proof. intro Hu. rewrite (Rabs_right (sqrt _)) by (apply Rle_ge; apply sqrt_pos). apply (mod_err rnd u H); exact Hu. Qed.
+
+(* at most two roundings per component: rot, flip, and the op= forms rot_eq, flip_eq, smod_eq, mod_eq *)
+Ltac comp2_side rnd u H :=
+  first [ apply (set2_err rnd u H) | apply (negset_err rnd u H) | apply (one_w rnd u H) | apply (exact_w rnd u H)
+        | (apply (smod_err_abs rnd u H); lra) | (apply (mod_err_abs rnd u H); lra) ].
+
+Ltac comp2_tac :=
+  err_intro_u;
+  match goal with H : std_model ?rnd ?u |- _ =>
+    pose proof (proj1 H);
+    eapply Rle_trans;
+    [ apply (cmod_from_components (2 * u)); [ lra | comp2_side rnd u H | comp2_side rnd u H ]
+    | right; ring ] end.
+
+Definition entries_comp2 : list (prog * spec) :=
+  [ (prog_mpc_rot_p0, spec_mpc_rot_p0); (prog_mpc_rot_p1, spec_mpc_rot_p1);
+    (prog_mpc_flip_p0, spec_mpc_flip_p0); (prog_mpc_flip_p1, spec_mpc_flip_p1);
+    (prog_mpc_rot_eq_p0, spec_mpc_rot_eq_p0); (prog_mpc_flip_eq_p0, spec_mpc_flip_eq_p0);
+    (prog_mpc_smod_eq_p0, spec_mpc_smod_eq_p0); (prog_mpc_mod_eq_p0, spec_mpc_mod_eq_p0) ].
+Lemma comp2_all : Forall (fun e => cplx_err_ok_u 1 2 (fst e) (snd e)) entries_comp2.
+Proof. unfold entries_comp2. all_entries ltac:(simpl fst; simpl snd; comp2_tac). Qed.
+
+Lemma inv_scale_err' rnd u (H : std_model rnd u) (q1 q2 q3 q4 q5 q6 q7 q8 r1 r2 : reg) a b m :
+  0 < a * a + b * b -> u <= / 16 ->
+  let n := a * a + b * b in
+  let nh := rnd q3 (rnd q1 (a * a) + rnd q2 (b * b)) in
+  let tr := rnd q7 (rnd q4 a / nh) in let ti := rnd q8 (rnd q6 (- rnd q5 b) / nh) in
+  let re := rnd r1 (tr * m) in let im := rnd r2 (ti * m) in
+  (re - m * a / n) * (re - m * a / n) + (im - - (m * b) / n) * (im - - (m * b) / n)
+    <= (8 * u) * (8 * u) * (m * a / n * (m * a / n) + - (m * b) / n * (- (m * b) / n)).
+Proof.
+  intros Hn Hu n nh tr ti re im.
+  pose proof (inv_scale_err rnd u H q1 q2 q3 q4 q5 q6 q7 q8 r1 r2 a b m Hn Hu) as G. cbv zeta in G.
+  fold n nh tr ti re im in G.
+  replace (m * a / n) with (a / n * m) by (unfold n; field; lra).
+  replace (- (m * b) / n) with (- b / n * m) by (unfold n; field; lra). exact G.
+Qed.
+
+Ltac inv2_tac :=
+  err_intro_u;
+  match goal with H : std_model ?rnd ?u, Hp : _ <> 0 |- _ =>
+    eapply Rle_trans; [ apply (inv2_err rnd u H); [ apply sumsq_pos; exact Hp | lra ] | right; ring ] end.
+Ltac invscale_tac :=
+  err_intro_u;
+  match goal with H : std_model ?rnd ?u, Hp : _ <> 0 |- _ =>
+    eapply Rle_trans; [ apply (inv_scale_err' rnd u H); [ apply sumsq_pos; exact Hp | lra ] | right; ring ] end.
+
+Definition entries_inv2 : list (prog * spec) :=
+  [ (prog_mpc_inv2_p0, spec_mpc_inv2_p0); (prog_mpc_inv2_p1, spec_mpc_inv2_p1) ].
+Lemma inv2_all : Forall (fun e => cplx_err_ok_u (/ 16) 7 (fst e) (snd e)) entries_inv2.
+Proof. unfold entries_inv2. all_entries ltac:(simpl fst; simpl snd; inv2_tac). Qed.
+
+Definition entries_invscale : list (prog * spec) :=
+  [ (prog_mpc_f_div_p0, spec_mpc_f_div_p0); (prog_mpc_f_div_p1, spec_mpc_f_div_p1);
+    (prog_mpc_ui_div_p0, spec_mpc_ui_div_p0); (prog_mpc_ui_div_p1, spec_mpc_ui_div_p1) ].
+Lemma invscale_all : Forall (fun e => cplx_err_ok_u (/ 16) 8 (fst e) (snd e)) entries_invscale.
+Proof. unfold entries_invscale. all_entries ltac:(simpl fst; simpl snd; invscale_tac). Qed.
+
+(* ---------------------------------------------------------------- mpc_pow_si: the traced unrollings are instances of the model *)
+Lemma pow_si_instances :
+  pow_si_model (csrc false) (-3) = prog_mpc_pow_si_m3_p0 /\ pow_si_model (csrc true) (-3) = prog_mpc_pow_si_m3_p1 /\
+  pow_si_model (csrc false) (-1) = prog_mpc_pow_si_m1_p0 /\ pow_si_model (csrc true) (-1) = prog_mpc_pow_si_m1_p1 /\
+  pow_si_model (csrc false) 0 = prog_mpc_pow_si_0_p0 /\ pow_si_model (csrc true) 0 = prog_mpc_pow_si_0_p1 /\
+  pow_si_model (csrc false) 1 = prog_mpc_pow_si_1_p0 /\ pow_si_model (csrc true) 1 = prog_mpc_pow_si_1_p1 /\
+  pow_si_model (csrc false) 2 = prog_mpc_pow_si_2_p0 /\ pow_si_model (csrc true) 2 = prog_mpc_pow_si_2_p1 /\
+  pow_si_model (csrc false) 3 = prog_mpc_pow_si_3_p0 /\ pow_si_model (csrc true) 3 = prog_mpc_pow_si_3_p1 /\
+  pow_si_model (csrc false) 5 = prog_mpc_pow_si_5_p0 /\ pow_si_model (csrc true) 5 = prog_mpc_pow_si_5_p1 /\
+  pow_si_model (csrc false) 6 = prog_mpc_pow_si_6_p0 /\ pow_si_model (csrc true) 6 = prog_mpc_pow_si_6_p1.
+Proof. repeat split; vm_compute; reflexivity. Qed.
+
+Lemma pow_si_example : pow_si_val (2, 0) 5 = (32, 0).
+Proof.
+  rewrite pow_si_val_pow. change (Z.abs_nat 5) with 5%nat. change ((5 <? 0)%Z) with false.
+  unfold cpown, cmul, cone; simpl. apply injective_projections; simpl; ring.
+Qed.
+
 (* non-vacuity: the exact arithmetic is a standard model with u = 0, and a concrete store *)
 Definition store0 : store := fun r =>
   match r with C1Re => 3 | C1Im => 2 | C2Re => 5 | C2Im => -7 | F1 => 11 | _ => 1 end.
@@ -241,6 +329,70 @@ Proof.
     rewrite Hr.
     assert (Aq : (Z.abs m = Z.abs q * 2 ^ s + Z.abs r)%Z) by nia.
     repeat split; try nia.
+Qed.
+
+
+(* ---------------------------------------------------------------- conversions, general precision
+   truncation of an integer mantissa to p bits (GMP mpf assignment into a p-bit destination, mpf_get_d
+   for p = 53): value q * 2^s *)
+Definition truncp (p m : Z) : Z * Z :=
+  if (Z.abs m <? 2 ^ p)%Z then (m, 0%Z)
+  else let s := (Z.log2 (Z.abs m) - (p - 1))%Z in (Z.quot m (2 ^ s), s).
+
+Lemma truncp_spec p m : (1 <= p)%Z ->
+  let '(q, s) := truncp p m in
+  (0 <= s /\ 2 ^ (p - 1) * Z.abs (m - q * 2 ^ s) <= Z.abs m /\ Z.abs (q * 2 ^ s) <= Z.abs m
+   /\ Z.sgn q = Z.sgn m /\ Z.abs q < 2 ^ p /\ (m = 0 <-> q = 0))%Z.
+Proof.
+  intro Hp. unfold truncp. destruct (Z.abs m <? 2 ^ p)%Z eqn:E.
+  - apply Z.ltb_lt in E. rewrite Z.pow_0_r, Z.mul_1_r, Z.sub_diag. simpl Z.abs at 1. lia.
+  - apply Z.ltb_ge in E.
+    assert (Pp : (0 < 2 ^ p)%Z) by (apply Z.pow_pos_nonneg; lia).
+    assert (Hm : (0 < Z.abs m)%Z) by lia.
+    pose proof (Z.log2_spec _ Hm) as [L1 L2].
+    set (l := Z.log2 (Z.abs m)) in *.
+    assert (Hl : (p <= l)%Z).
+    { destruct (Z_lt_le_dec l p) as [C|C]; [|exact C]. exfalso.
+      assert (2 ^ (Z.succ l) <= 2 ^ p)%Z by (apply Z.pow_le_mono_r; lia). lia. }
+    set (s := (l - (p - 1))%Z). assert (Hs : (0 < s)%Z) by (unfold s; lia).
+    assert (P : (0 < 2 ^ s)%Z) by (apply Z.pow_pos_nonneg; lia).
+    pose proof (Z.quot_rem' m (2 ^ s)) as QR.
+    pose proof (Z.rem_bound_abs m (2 ^ s) ltac:(lia)) as RB. rewrite (Z.abs_eq (2 ^ s)) in RB by lia.
+    pose proof (Z.rem_sign_nz m (2 ^ s)) as RS.
+    set (q := Z.quot m (2 ^ s)) in *. set (r := Z.rem m (2 ^ s)) in *.
+    assert (E52 : (2 ^ l = 2 ^ (p - 1) * 2 ^ s)%Z) by (unfold s; rewrite <- Z.pow_add_r by lia; f_equal; lia).
+    assert (E53 : (2 ^ Z.succ l = 2 ^ p * 2 ^ s)%Z) by (unfold s; rewrite <- Z.pow_add_r by lia; f_equal; lia).
+    assert (Hr : (m - q * 2 ^ s = r)%Z) by lia.
+    assert (Sr : (r = 0 \/ Z.sgn r = Z.sgn m)%Z).
+    { destruct (Z.eq_dec r 0) as [C|C]; [left; exact C | right; apply RS; [lia | exact C]]. }
+    assert (P52 : (0 < 2 ^ (p - 1))%Z) by (apply Z.pow_pos_nonneg; lia).
+    rewrite Hr.
+    assert (Aq : (Z.abs m = Z.abs q * 2 ^ s + Z.abs r)%Z) by nia.
+    set (A := (2 ^ (p - 1))%Z) in *. set (B := (2 ^ p)%Z) in *. set (S := (2 ^ s)%Z) in *.
+    repeat split; try nia.
+Qed.
+
+(* mpf_set_d / mpc_set_cplx / mpc_set_d into a destination of p >= 53 bits: a double's 53-bit mantissa is kept
+   exactly (GMP never allocates fewer than 2 limbs, so p >= 53 always holds); into fewer bits: relative
+   error <= 2^(1-p) by truncp_spec.  mpc_get_cplx / mpc_get_cdpe / mpf_get_rdpe are truncp 53 per component
+   (for values in the double range; outside it mpf_get_d's result is unspecified by GMP and the check only
+   requires that the sign is not flipped). *)
+Lemma set_d_exact p q : (53 <= p)%Z -> (Z.abs q < 2 ^ 53)%Z -> truncp p q = (q, 0%Z).
+Proof.
+  intros Hp Hq. unfold truncp.
+  assert (2 ^ 53 <= 2 ^ p)%Z by (apply Z.pow_le_mono_r; lia).
+  destruct (Z.abs q <? 2 ^ p)%Z eqn:E; [reflexivity|]. apply Z.ltb_ge in E. lia.
+Qed.
+
+Lemma trunc53_is_truncp m : trunc53 m = truncp 53 m.
+Proof. reflexivity. Qed.
+
+(* round trip double -> mpf -> double is the identity on the mantissa *)
+Lemma get_set_roundtrip p q : (53 <= p)%Z -> (Z.abs q < 2 ^ 53)%Z ->
+  let '(q1, s1) := truncp p q in truncp 53 q1 = (q, 0%Z) /\ s1 = 0%Z.
+Proof.
+  intros Hp Hq. rewrite (set_d_exact p q Hp Hq). split; [|reflexivity].
+  apply set_d_exact; [lia | exact Hq].
 Qed.
 
 (* mpf_set_rdpe: mpf_set_d is exact when the destination has at least 53 bits (GMP's minimum
